@@ -96,6 +96,58 @@ func Build(name, pkg, srcDir string, race bool) (string, error) {
 	return bin, nil
 }
 
+// BuildCmd builds the command pkg ("./cmd/lambda-extension") of the repository under test with the verif tag
+// (and the race detector if asked) into VERIF_OUT, once per run (shards serialise on a lock file), and returns
+// the path of the executable. The repository is not written: the module files are private copies.
+func BuildCmd(name, pkg string, race bool) (string, error) {
+	repo := os.Getenv("VERIF_REPO_DIR")
+	out := os.Getenv("VERIF_OUT")
+	if repo == "" || out == "" {
+		return "", fmt.Errorf("VERIF_REPO_DIR / VERIF_OUT unset")
+	}
+	bin := filepath.Join(out, "cmd_"+name)
+	lock, err := os.OpenFile(bin+".lock", os.O_CREATE|os.O_RDWR, 0o644)
+	if err != nil {
+		return "", err
+	}
+	defer lock.Close()
+	if err := syscall.Flock(int(lock.Fd()), syscall.LOCK_EX); err != nil {
+		return "", err
+	}
+	defer syscall.Flock(int(lock.Fd()), syscall.LOCK_UN)
+	if _, err := os.Stat(bin + ".ok"); err == nil {
+		return bin, nil
+	}
+	if msg, err := os.ReadFile(bin + ".err"); err == nil {
+		return "", fmt.Errorf("%s", msg)
+	}
+	modFile := bin + ".go.mod"
+	for _, p := range [][2]string{{"go.mod", modFile}, {"go.sum", bin + ".go.sum"}} {
+		b, err := os.ReadFile(filepath.Join(repo, p[0]))
+		if err != nil {
+			return "", err
+		}
+		if err := os.WriteFile(p[1], b, 0o644); err != nil {
+			return "", err
+		}
+	}
+	args := []string{"build", "-tags", "verif", "-modfile=" + modFile, "-o", bin}
+	if race {
+		args = append(args, "-race")
+	}
+	args = append(args, pkg)
+	cmd := exec.Command("go", args...)
+	cmd.Dir = repo
+	cmd.Env = cleanEnv()
+	if outp, err := cmd.CombinedOutput(); err != nil {
+		msg := fmt.Sprintf("build of %s failed: %v\n%s", pkg, err, outp)
+		_ = os.WriteFile(bin+".err", []byte(msg), 0o644)
+		return "", fmt.Errorf("%s", msg)
+	}
+	_ = os.WriteFile(bin+".ok", nil, 0o644)
+	return bin, nil
+}
+
 // Run executes the overlay binary's test function testName once with the extra environment, and returns
 // the combined output and the exit error (nil = the test function passed). The race detector log of the
 // child goes next to the check's own (GORACE is inherited).
